@@ -20,6 +20,8 @@ var lexFragments = []string{
 	"// comment\n", "// trailing", "//\n", "// a // b\n", "//x  \n", "/", "/ /", "/* c */",
 	"// comment\r\n", "x // c\r\ny", "//\r\n", "a // b\r\n(c)", "return // c\r\n1", "a\r\n++b", "`a\r\nb`", "\"a\\\r\nb\"",
 	" ", "  ", "\t", "\n", "\n\n", "\r", "\r\n", "\x00", "\x80", "\xe9", "\xff", "é", "日本", "\u2028",
+	// escapes inside backtick literals other than the backtick's own; a byte order mark
+	"`a\\${b}`", "`\\$`", "`\\\\\\``", "`\\\\${x}`", "`\\n\\\\`", "`$`", "`${a}`", "\ufeff", "\ufefflet x",
 }
 
 func randBytes(r *rand.Rand, n int) string {
@@ -77,6 +79,9 @@ func genLex(r *rand.Rand, n int, exhaustive bool, emit func(string)) {
 		if r.Intn(6) == 0 { // Windows line endings
 			s = strings.ReplaceAll(s, "\n", "\r\n")
 		}
+		if r.Intn(12) == 0 { // a byte order mark in front
+			s = "\ufeff" + s
+		}
 		emit(fmt.Sprintf("LEX %s %d", hexOf(s), r.Intn(4)))
 	}
 }
@@ -110,7 +115,9 @@ func genSmapLine(r *rand.Rand) string {
 	n := r.Intn(30)
 	ops := make([]string, 0, n)
 	for i := 0; i < n; i++ {
-		switch r.Intn(9) {
+		switch r.Intn(10) {
+		case 9:
+			ops = append(ops, "q")
 		case 0, 1, 2:
 			ops = append(ops, fmt.Sprintf("m:%d:%d", smapInt(r), smapInt(r)))
 		case 3, 4:
@@ -156,7 +163,9 @@ func genSmap(r *rand.Rand, n int, vlqRange int, emit func(string)) {
 // built-in token type numbers that are interesting for registration histories
 var buildTypes = []int{2, 3, 7, 8, 10, 11, 12, 15, 21, 23, 24, 25, 26, 29, 30, 32, 34, 36, 37, 45, 0}
 var dynLits = []string{"^", "~", "@", "#", "?", "\\"}
-var buildSources = []string{"a ^ b + c", "a + b ^ c * d", "~a.b", "a@", "a # b # c", "a ^ b ~ c", "x = a ? b", "a + b", "a++ + b", "-a * b", "a ^ (b @)", "f(a ^ b, ~c)", "a = b ^ c", "a ^ b == c ^ d", "a.b ^ c[d]", "!a ^ b"}
+var buildSources = []string{"a ^ b + c", "a + b ^ c * d", "~a.b", "a@", "a # b # c", "a ^ b ~ c", "x = a ? b", "a + b", "a++ + b", "-a * b", "a ^ (b @)", "f(a ^ b, ~c)", "a = b ^ c", "a ^ b == c ^ d", "a.b ^ c[d]", "!a ^ b",
+	// sources on which the parser modes differ
+	"let x = 1 let y = 2", "f\n(g)", "a = b\n[c].d", "if (a) { b", "x = a ^ b\n(c)", "a b"}
 
 func genBuildLine(r *rand.Rand) string {
 	n := 1 + r.Intn(14)
@@ -169,7 +178,10 @@ func genBuildLine(r *rand.Rand) string {
 			}
 			return buildTypes[r.Intn(len(buildTypes))]
 		}
-		switch r.Intn(8) {
+		switch r.Intn(9) {
+		case 8:
+			// a mode switched on the same builder, possibly after parsers have been built from it
+			ops = append(ops, fmt.Sprintf("M:%s:%d", []string{"t", "s"}[r.Intn(2)], r.Intn(2)))
 		case 0, 1:
 			lit := dynLits[r.Intn(len(dynLits))]
 			ops = append(ops, "T:"+hexOf(lit))
@@ -195,6 +207,13 @@ func genBuildLine(r *rand.Rand) string {
 
 func genBuild(r *rand.Rand, n int, emit func(string)) {
 	emit("BUILD B:" + hexOf("a + b"))
+	// build, switch a mode, build again (and back)
+	for _, src := range []string{"let x = 1 let y = 2", "f\n(g)", "if (a) { b"} {
+		h := hexOf(src)
+		emit("BUILD B:" + h + " M:t:1 B:" + h + " M:t:0 B:" + h)
+		emit("BUILD B:" + h + " M:s:1 B:" + h + " M:s:0 B:" + h)
+		emit("BUILD M:t:1 M:s:1 B:" + h + " M:t:0 B:" + h + " M:s:0 B:" + h)
+	}
 	for i := 0; i < n; i++ {
 		emit(genBuildLine(r))
 	}
